@@ -140,6 +140,7 @@ func (c01) gen0(rng *rand.Rand, tier string, idx int) Case {
 		o := []int64{0, sz / 2, sz, 2*sz + 1}[rng.Intn(4)]
 		c.Cfg = [][]string{{"kind", "sqltumbling"}, {"size", itoa(sz)}, {"ooo", itoa(o)}, {"late", "0"}, {"now", "0"}, {"spell", []string{"ms", "go"}[rng.Intn(2)]}}
 		genSQLWindow(rng, &c, sz, o)
+		maybeWinAPI(rng, &c)
 		return c
 	}
 	if idx%12 == 10 {
